@@ -220,7 +220,7 @@ theorem C20_results_equal_output (w : Wrapper) (t : Tool) (n : Nat) (k : String)
     let s := run (init w t n k) cs
     (s.state ≠ .joined → s.result = none) ∧
     (s.state = .joined → w.isMsa = true →
-      ∃ r, s.result = some r ∧ parseOutput (toolRows t n) (badLengths t) n = .ok r) := by
+      ∃ r, s.result = some r ∧ parseOutput (toolRows t n) (badLengths t n) n = .ok r) := by
   intro s
   have hi : Inv s := run_inv _ cs (inv_init w t n k)
   have hfr : s.w = w ∧ s.tool = t ∧ s.n = n := run_frame _ cs
@@ -253,6 +253,68 @@ theorem C20_order_restored (out : List (Nat × Nat)) (n : Nat)
   rw [this]
   simp only [List.getElem_range]
   exact find_of_mem out h r hnd hm
+
+/-- **A rejected call changes nothing.**  Whatever a getter/setter call is rejected for — the state guard, the
+validation of its arguments (`ValueError`: a positive gap penalty, a distance matrix / guide tree of the wrong size), a
+missing result — the wrapper is exactly as before: in particular `set_gap_penalty((open, ext))` with a valid `open` and an
+invalid `ext` does not store `open`. -/
+theorem C20_rejected_call_pure (s : St) (c : Call) (e : Err)
+    (hc : (∃ m, c = .method m) ∨ (∃ m, c = .methodBad m) ∨ (∃ a b, c = .setGap a b))
+    (h : (step s c).2 = .err e) : (step s c).1 = s :=
+  rejected_call_pure s c e hc h
+
+/-- `set_gap_penalty` is accepted exactly when every given value is ≤ 0 (in CREATED), and then stores exactly the given
+values. -/
+theorem C20_set_gap_penalty (s : St) (a : Int) (b : Option Int) :
+    ((setGapBody s a b).2 = .ok "" ↔ (a ≤ 0 ∧ ∀ e, b = some e → e ≤ 0)) ∧
+    ((setGapBody s a b).2 = .ok "" → (setGapBody s a b).1.gap = some (a, b.getD a)) := by
+  unfold setGapBody
+  cases b with
+  | none => by_cases ha : a > 0 <;> simp [ha] <;> omega
+  | some e =>
+    by_cases ha : a > 0 <;> by_cases he : e > 0 <;> simp [ha, he] <;> omega
+
+/-- **Symbol counts are checked row by row.**  An MSA wrapper's `evaluate()` accepts the program's output only if *every*
+row has exactly as many symbols as its input sequence — not merely the totals: the `garbageSwap` output (row 0 one symbol
+too many, row 1 one too few) has the right total and is rejected. -/
+theorem C20_symbol_counts_checked_per_row (s : St) (r) (hm : s.w.isMsa = true) (h : evaluate s = .ok r) :
+    ∀ i, i < s.n → lengthDelta s.tool i = 0 := by
+  intro i hi
+  have hb : badLengths s.tool s.n = false := by
+    unfold evaluate at h
+    cases hw : s.w <;> simp [hw, Wrapper.isMsa] at h hm <;>
+    · split at h
+      · simp at h
+      · split at h
+        · simp at h
+        · rename_i r' hr
+          unfold parseOutput at hr
+          split at hr
+          · simp at hr
+          · split at hr
+            · simp at hr
+            · rename_i hcond
+              cases hbl : badLengths s.tool s.n <;> simp_all
+  simp only [badLengths, decide_eq_false_iff_not, not_or, List.any_eq_true, not_exists, not_and] at hb
+  have := hb.2 i (by simpa using hi)
+  simpa using this
+
+example : (List.range 3).map (lengthDelta .garbageSwap) = [1, -1, 0] ∧
+    ((List.range 3).map (lengthDelta .garbageSwap)).sum = 0 ∧
+    (step (run (init .muscle5 .garbageSwap 3 "protein") [.start]) (.join .none)).2 = .err errEval := by decide
+
+/-- A program that fills the STDERR pipe cannot be seen finished by polling, but `join` (which reads the pipes while it
+waits) completes it — with and without a (sufficient) timeout. -/
+example :
+    let s := run (init .mafft .bigout 3 "protein") [.start, .tick, .getState]
+    s.state = .running ∧ s.child = .alive ∧
+    (step s (.join .pos)).2 = .ok "" ∧ (step s (.join .none)).2 = .ok "" ∧ (step s (.join .pos)).1.state = .joined := by
+  decide
+
+/-- A half-valid affine gap penalty is rejected and leaves the previously stored penalty in place. -/
+example :
+    let s := run (init .muscle3 .ok 3 "protein") [.setGap (-3) (some (-1)), .setGap (-5) (some 5)]
+    s.gap = some (-3, -1) ∧ (step (run s [.start]) (.method "get_command")).2 = .ok "gap=-3/-1" := by decide
 
 /-! ## Exotic sequence types are mapped onto the amino-acid alphabet and back -/
 
